@@ -53,9 +53,11 @@ where
     unsafe {
       let out_ptr = self.out.as_ptr() as *mut naMatrix<T, R1, C1, S1>;
       let mut current = *self.from.as_ptr();
-      for i in 0..(*out_ptr).len() {
+      let len = (*out_ptr).len();
+      for i in 0..len {
         (&mut (*out_ptr))[i] = current;
-        current = current + T::one();
+        // the term after the last one may not be representable (e.g. 250u8..=255u8)
+        if i + 1 < len { current = current + T::one(); }
       }
     }
   }
